@@ -7,7 +7,7 @@
 (* deviation is a predicate on the event.                                        *)
 EXTENDS Kernels
 
-KnownIds == {"C14-KF3", "C14-KF6"}
+KnownIds == {"C14-KF3", "C14-KF6", "C14-KF9", "C14-KF10", "C14-KF11", "C14-KF12"}
 
 (* C14-KF1: io::simd_memory::search::sse42_strstr_short loads 16 bytes at every offset     *)
 (* although fewer than 16 bytes of the haystack remain: with the haystack ending at a page   *)
@@ -69,6 +69,7 @@ KF5(e, subj) == G5(e, subj) /\ e.r = ZeroHighBits(e.x, e.w, e.n % 256)
 UsesRankSelect(e, subj) ==
     \/ subj.subject = "fastsearch@ranksel"
     \/ subj.subject = "fastsearch@default" /\ Len(e.h) >= 36
+    \/ subj.subject = "fastsearch@performance" /\ Len(e.h) >= 64        \* preset: adaptive, threshold 64
 (* C14-KF6: search_rank_select asks select1(i) for i = 1..count although select1 counts from  *)
 (* 0: the first occurrence is dropped (the failing last query is ignored).                    *)
 G6(e, subj) == UsesRankSelect(e, subj) /\ e.op = "positions" /\ Len(PositionsOf(e.h, e.c)) >= 1
@@ -143,6 +144,67 @@ KF8(e, subj) ==
                   /\ \A idx \in 0..(cnt - 1) :
                         e.r[idx + 1] = BmiCountOf(Embed(e.frame, e.off, NthString(e.alpha, e.k, idx)))
 
+(* C14-KF9: string::bmi2_string_ops::wildcard_match_bmi2_impl (text of 8+ bytes, pattern of 4+): *)
+(* it stops when the pattern is used up without looking at the rest of the text, a `*` jumps to  *)
+(* the FIRST occurrence of the byte behind it and never retries, and that byte is compared       *)
+(* literally even when it is `?`.  The algorithm as written (ti, pi 0-based):                    *)
+RECURSIVE SkipStars(_, _)
+SkipStars(p, pi) == IF pi < Len(p) /\ p[pi + 1] = 42 THEN SkipStars(p, pi + 1) ELSE pi
+RECURSIVE SeekByte(_, _, _)
+SeekByte(t, c, ti) == IF ti >= Len(t) \/ t[ti + 1] = c THEN ti ELSE SeekByte(t, c, ti + 1)
+RECURSIVE GreedyWild(_, _, _, _)
+GreedyWild(t, p, ti, pi) ==
+    IF pi < Len(p) /\ ti < Len(t)
+    THEN IF p[pi + 1] = 42
+         THEN LET q == SkipStars(p, pi)
+              IN  IF q = Len(p) THEN TRUE ELSE GreedyWild(t, p, SeekByte(t, p[q + 1], ti), q)
+         ELSE IF p[pi + 1] = 63 THEN GreedyWild(t, p, ti + 1, pi + 1)
+         ELSE IF t[ti + 1] # p[pi + 1] THEN FALSE ELSE GreedyWild(t, p, ti + 1, pi + 1)
+    ELSE SkipStars(p, pi) = Len(p)
+G9(e, subj) == /\ subj.subject \in {"bmi2text", "bmi2text@global"}
+               /\ e.op = "wildcard" /\ Len(e.t) >= 8 /\ Len(e.p) >= 4
+KF9(e, subj) == G9(e, subj) /\ e.r = GreedyWild(e.t, e.p, 0, 0)
+
+(* C14-KF10: string::bmi2_string_ops::hash_string_bmi2_impl (strings of 8+ bytes; hash_bulk_bmi2  *)
+(* for every element): a full 8-byte chunk is absorbed as ONE little-endian word and followed by   *)
+(* h <- h xor bits 13..31 of h; the portable path absorbs byte by byte.                            *)
+BextrMix(h) ==          \* limbs most significant first; v = bits 13..31 = 19 bits
+    LET v == h[3] * 8 + (h[4] \div 8192)
+    IN  <<h[1], h[2], h[3] ^^ (v \div 65536), h[4] ^^ (v % 65536)>>
+RECURSIVE Bmi2HashFrom(_, _, _)
+Bmi2HashFrom(h, s, i) ==
+    IF i + 7 > Len(s) THEN HashBytes(h, s, i)
+    ELSE Bmi2HashFrom(BextrMix(Add64(Rotl5(h), LeWord(s, i))), s, i + 8)
+Bmi2Hash(s, base) == Bmi2HashFrom(base, s, 1)
+G10(e, subj) ==
+    /\ subj.subject \in {"bmi2text", "bmi2text@global"}
+    /\ \/ e.op = "bytehash" /\ Len(e.s) >= 8
+       \/ e.op = "bytehash_bulk" /\ \E k \in 1..Len(e.ss) : Len(e.ss[k]) >= 8
+KF10(e, subj) ==
+    /\ G10(e, subj)
+    /\ IF e.op = "bytehash" THEN e.r = Bmi2Hash(e.s, e.base)
+       ELSE e.r = [k \in 1..Len(e.ss) |-> Bmi2Hash(e.ss[k], e.base)]
+
+(* C14-KF11: entropy::bit_ops::BitOps::parallel_bit_extract_bmi2 indexes field_masks[0] on its *)
+(* BMI2 route: an empty mask list panics there (the software route answers the empty list).     *)
+G11(e, subj) == /\ subj.subject = "bitfields@hw:empty_masks"
+                /\ e.op = "panic" /\ e.in = "pext_list"
+                /\ e.msg = "index out of bounds: the len is 0 but the index is 0"
+KF11(e, subj) == G11(e, subj)
+
+(* C14-KF12: the software route of CompressionBmi2Dispatcher::dispatch_variable_length_decode   *)
+(* sets `1u32 << bit_idx` for the bit_idx-th mask bit: for a mask with more than 32 bits the      *)
+(* shift count wraps modulo 32 (release build) and bits 32..63 of the extract land on bits 0..31. *)
+WrapPext32(x, m) ==
+    LET pb == ToBits(Pext(x, m, 64), 64)
+    IN  FromBits([i \in 1..32 |-> IF pb[i] = 1 \/ pb[i + 32] = 1 THEN 1 ELSE 0])
+G12(e, subj) == /\ subj.subject = "bitdispatch@sw"
+                /\ e.op = "pext_list" /\ e.w32 /\ e.add = <<0, 0, 0, 0>>
+                /\ \E k \in 1..Len(e.ms) : PopCount(e.ms[k], 64) > 32
+KF12(e, subj) ==
+    /\ G12(e, subj) /\ Len(e.r) = Len(e.ms)
+    /\ \A k \in 1..Len(e.ms) : e.r[k] = WrapPext32(e.x, e.ms[k])
+
 (* guard (state predicate) and action of each deviation.  In KF mode a deviation whose   *)
 (* guard holds REPLACES the contract action for that event.                               *)
 DevApplies(id, e, subj) ==
@@ -154,6 +216,10 @@ DevApplies(id, e, subj) ==
     \/ id = "C14-KF6" /\ G6(e, subj)
     \/ id = "C14-KF7" /\ G7(e, subj)
     \/ id = "C14-KF8" /\ G8(e, subj)
+    \/ id = "C14-KF9" /\ G9(e, subj)
+    \/ id = "C14-KF10" /\ G10(e, subj)
+    \/ id = "C14-KF11" /\ G11(e, subj)
+    \/ id = "C14-KF12" /\ G12(e, subj)
 KnownDeviation(id, e, subj) ==
     \/ id = "C14-KF1" /\ KF1(e, subj)
     \/ id = "C14-KF2" /\ KF2(e, subj)
@@ -163,4 +229,8 @@ KnownDeviation(id, e, subj) ==
     \/ id = "C14-KF6" /\ KF6(e, subj)
     \/ id = "C14-KF7" /\ KF7(e, subj)
     \/ id = "C14-KF8" /\ KF8(e, subj)
+    \/ id = "C14-KF9" /\ KF9(e, subj)
+    \/ id = "C14-KF10" /\ KF10(e, subj)
+    \/ id = "C14-KF11" /\ KF11(e, subj)
+    \/ id = "C14-KF12" /\ KF12(e, subj)
 =============================================================================
